@@ -20,7 +20,7 @@ from simdag.seams.store import RecStore, copy_store
 
 META = {"C02": {
     "level": "exploration",
-    "quick_runs": 2500,
+    "quick_runs": 20000,
     "block": 25,
     "thorough_budget_s": 900,
     "rule": ("one run = one seeded builder script applied to a real CodeBuilder; per phase the written-order "
